@@ -166,13 +166,20 @@ def build(cfg, rng):
                     b.init_bytes[(b.base + a) * 4 + k] = fb[((origin // 4) | a) * 4 + k]
         else:
             m = wishbone.Interface(data_width=32, adr_width=16)
-            src = SoCRegion(origin=0x400, size=0x80)
-            dst = SoCRegion(origin=0x200 if v == 2 else 0x0, size=0x80)
+            # the master's window reaches 8 words below and above the source region: those words are outside every region and go
+            # through untranslated (the word just past the region's end included)
+            src = SoCRegion(origin=0x200, size=0x80)
+            dst = SoCRegion(origin=0x300 if v == 2 else 0x0, size=0x80)
             top.submodules += wishbone.Remapper(m, sbus, src_regions=[src], dst_regions=[dst])
-            b.master, b.words = m, 0x80 // 4
-            b.base = 0x400 // 4
+            b.master, b.words = m, 0x80 // 4 + 16
+            b.base = 0x200 // 4 - 8
             fb = flat_bytes(init, 32)
-            b.init_bytes = {(b.base + a) * 4 + k: fb[dst.origin + a * 4 + k] for a in range(0x80 // 4) for k in range(4)}
+            b.init_bytes = {}
+            for a in range(b.words):
+                w = b.base + a
+                inside = 0x200 // 4 <= w < (0x200 + 0x80) // 4
+                for k in range(4):
+                    b.init_bytes[w * 4 + k] = fb[dst.origin + (w - 0x200 // 4) * 4 + k] if inside else fb[w * 4 + k]
         b.slave_bus = sbus
     elif d == "wb2csr":
         m = wishbone.Interface(data_width=32, adr_width=16)
